@@ -251,6 +251,11 @@ namespace occa {
     void setAlignment(const udim_t alignment);
   };
 
+  // reserve<void> (also the default template argument) counts in bytes; without this
+  // declaration user code instantiates the generic template with dtype::void_ (0 bytes)
+  template <>
+  occa::memory memoryPool::reserve<void>(const dim_t entries);
+
 }
 
 #include "memoryPool.tpp"
